@@ -72,6 +72,9 @@ FORMS_R = {
     "dstar": "{S}(**tr('kw', {{'x': 's'}}))",
     "pos-dstar": "{S}(tr('a', 's'), **tr('kw', {{'k': 3}}))",
     "nested": "{S}({S}(tr('a', 's')))",
+    "nested-second": "{S}(tr('a', 1), len({S}(tr('b', 's'))))",
+    "nested-kw": "{S}(tr('a', 's'), k=len({S}(tr('b', 's'))))",
+    "nested-both": "{S}(len({S}(tr('a', 's'))), len({S}(tr('b', 's'))))",
 }
 FORMS_N = {
     "one": "{S}(tr('a', 5))",
@@ -82,6 +85,9 @@ FORMS_N = {
     "dstar": "{S}(**tr('kw', {{'x': 5}}))",
     "pos-dstar": "{S}(tr('a', 's'), **tr('kw', {{'k': 3}}))",
     "nested": "{S}({S}(tr('a', 5)))",
+    "nested-second": "{S}(tr('a', 1), len({S}(tr('b', 5))))",
+    "nested-kw": "{S}(tr('a', 's'), k=len({S}(tr('b', 5))))",
+    "nested-both": "{S}(len({S}(tr('a', 5))), len({S}(tr('b', 5))))",
 }
 FAIL_R = "{S}(tr('f', 1.5))"
 SPECIALS = {"recurse": "recurse", "call_next": "call_next", "self-name": "fself", "renamed": "rec"}
@@ -405,8 +411,8 @@ def main(tier):
         rule=f"bodies from the grammar context[call]: {len(CONTEXTS)} expression / statement contexts (return, assignment, argument, every "
              "comprehension position, lambda, nested def and their defaults, conditional and boolean operators incl. short-circuit, "
              "f-string, subscript / attribute base, walrus, try/finally, try/except around a failing call, generator, for, with, "
-             "decorator, raise after the call; thorough: class body) x 8 call forms (positional, two, keyword, starred, "
-             "double-starred, nested) x 4 special names (recurse, call_next, the function's own name, a renamed import) x 5 "
+             "decorator, raise after the call; thorough: class body) x 11 call forms (positional, two, keyword, starred, "
+             "double-starred, nested in the first / a later / a keyword argument / both) x 4 special names (recurse, call_next, the function's own name, a renamed import) x 5 "
              "function kinds (module-level, closure instantiated twice, positional defaults, keyword-only defaults, method with "
              "self); each built twice from one source text; compared: acceptance, result, exception, order and multiplicity of "
              "argument evaluation (tracer log), generator laziness, defaults, file and line of the raising frame",
